@@ -935,7 +935,7 @@ PPL::Grid::constrains(const Variable var) const {
         if (g_i.expression().all_zeroes(1, var.space_dimension())
             && g_i.expression().all_zeroes(var.space_dimension() + 1, space_dim + 1)) {
           // The only nonzero coefficient in g_i is the one of var.
-          return true;
+          return false;
         }
       }
     }
